@@ -8,7 +8,7 @@ from fractions import Fraction as Fr
 from hypothesis import strategies as st
 
 from vf.common import Check, HarnessError, Violation, require
-from vf.strategies import CRS_POOL, SINU_PROJ, crs_tags, mk_crs, mk_crs_spec
+from vf.strategies import crs_kind, CRS_POOL, SINU_PROJ, crs_tags, mk_crs, mk_crs_spec
 
 RULE = (
     "Hypothesis-generated geometries of every kind (Point, LineString, LinearRing, Polygon without/with 1-2 holes, "
@@ -60,6 +60,8 @@ def _isect(a, b):
 
 
 PAIRS = [(a, b) for a in LABELS for b in LABELS if a != b and _isect(CRS_POOL[a][1], CRS_POOL[b][1]) is not None]
+# pairs of the same kind (geographic -> geographic: "only a datum shift") are few among all pairs: weight them up
+PAIRS += 4 * [(a, b) for a, b in PAIRS if crs_kind(a) == "geographic" and crs_kind(b) == "geographic"]
 
 # ----------------------------------------------------------------------------- reference transformers
 _PP: dict = {}
@@ -1292,10 +1294,80 @@ def o_empty(case, T):
     require(out.crs == want_crs, "%s of an empty %s is tagged %r", mode, kind, str(out.crs)[:40])
 
 
+# ----------------------------------------------------------------------------- the edge of the world
+def e_world_edges(tier):
+    """Geometries that touch the +-180 degree meridian / the edge of a global projection: the last column of a global
+    grid, world-wide bounding boxes (the Web-Mercator world square maps to lon +-180 exactly)."""
+    rings = {
+        "east_strip": [[170.0, -20.0], [180.0, -20.0], [180.0, -10.0], [170.0, -10.0]],
+        "west_strip": [[-180.0, 10.0], [-170.0, 10.0], [-170.0, 20.0], [-180.0, 20.0]],
+        "world": [[-180.0, -85.0], [180.0, -85.0], [180.0, 85.0], [-180.0, 85.0]],
+        "east_half": [[0.0, -60.0], [180.0, -60.0], [180.0, 60.0], [0.0, 60.0]],
+    }
+    for name, ring in rings.items():
+        for a, b in (("4326", "3857"), ("3857", "4326"), ("4326", "6933"), ("6933", "4326"), ("4326", "sinu"), ("sinu", "4326"), ("3857", "6933")):
+            for kind in ("Polygon", "LineString", "MultiPoint"):
+                yield {"name": name, "ring": ring, "src": a, "dst": b, "kind": kind}
+
+
+def o_world_edges(case, T):
+    """'maps every vertex exactly as the projection library maps that point' and 'there and back returns the original
+    coordinates' also hold on the rim of the valid area (lon = +-180)."""
+    import shapely.geometry as SG
+    from pyproj import Transformer
+
+    from odc.geo.geom import Geometry
+
+    a, b = case["src"], case["dst"]
+    ring = [tuple(p) for p in case["ring"]]
+    ta = Transformer.from_crs(_pp("4326"), _pp(a), always_xy=True)
+    src_pts = [ta.transform(x, y) for x, y in ring] if a != "4326" else ring
+    if not all(math.isfinite(v) for p in src_pts for v in p):
+        T.exclude("rim_not_projectable")
+        return
+    shp = {"Polygon": lambda: SG.Polygon(src_pts), "LineString": lambda: SG.LineString(src_pts), "MultiPoint": lambda: SG.MultiPoint(src_pts)}[case["kind"]]()
+    g = Geometry(shp, mk_crs_spec({"label": a, "spell": "proj" if a == "sinu" else "int"}))
+    dst = mk_crs_spec({"label": b, "spell": "proj" if b == "sinu" else "int"})
+    out = g.to_crs(dst)
+    tr = Transformer.from_crs(_pp(a), _pp(b), always_xy=True)
+    want = [tr.transform(x, y) for x, y in src_pts]
+    if case["kind"] == "Polygon":
+        got = list(out.geom.exterior.coords)[:-1]
+    elif case["kind"] == "LineString":
+        got = list(out.geom.coords)
+    else:
+        got = [(p.x, p.y) for p in out.geom.geoms]
+    require(out.geom.geom_type == shp.geom_type and len(got) == len(want), "%s %s->%s: type/vertex count changed (%s, %d vertices)", case["name"], a, b, out.geom.geom_type, len(got))
+    scale = 1.0 if b in ("4326",) else 1.0
+    for i, (q, w) in enumerate(zip(got, want)):
+        if not all(math.isfinite(v) for v in w):
+            continue
+        tol = 1e-9 * max(1.0, abs(w[0]), abs(w[1])) * scale
+        require(abs(q[0] - w[0]) <= tol and abs(q[1] - w[1]) <= tol, "%s %s->%s: vertex %d maps to (%.12g, %.12g), the projection library gives (%.12g, %.12g)", case["name"], a, b, i, q[0], q[1], w[0], w[1])
+    # there and back
+    back = out.to_crs(g.crs)
+    if case["kind"] == "Polygon":
+        gb = list(back.geom.exterior.coords)[:-1]
+    elif case["kind"] == "LineString":
+        gb = list(back.geom.coords)
+    else:
+        gb = [(p.x, p.y) for p in back.geom.geoms]
+    tb = Transformer.from_crs(_pp(b), _pp(a), always_xy=True)
+    for i, (q, w, p0) in enumerate(zip(gb, want, src_pts)):
+        if not all(math.isfinite(v) for v in w):
+            continue
+        ref = tb.transform(*w)  # what the library itself returns for the way back
+        tol = 1e-6 if a != "4326" else 1e-9
+        require(abs(q[0] - ref[0]) <= tol * max(1.0, abs(ref[0])) and abs(q[1] - ref[1]) <= tol * max(1.0, abs(ref[1])), "%s %s->%s->%s: vertex %d comes back as (%.12g, %.12g), the projection library's round trip gives (%.12g, %.12g) (started at (%.12g, %.12g))", case["name"], a, b, a, i, q[0], q[1], ref[0], ref[1], p0[0], p0[1])
+    T.nontrivial((case["name"], a, b, case["kind"]))
+    T.cls("rim:" + case["name"])
+
+
 def build(chk: Check) -> None:
     chk.sub("to_crs_options", o_to_crs_options, strategy=s_to_crs(), n={"quick": 1200, "thorough": 40000}, budget_s={"quick": 40, "thorough": 200})
     chk.sub("to_crs_after_many_crs", o_after_many, strategy=s_after_many(), n={"quick": 40, "thorough": 1500}, budget_s={"quick": 40, "thorough": 200}, shrink=False)
     # budgets are per sub-check per shard; their sum bounds the tier's wall time (quick 90 s, thorough 15 min)
+    chk.sub("world_edges", o_world_edges, enum=e_world_edges, exhaustive_tiers=("quick", "thorough"))
     chk.sub("empty_geometries", o_empty, enum=e_empty, exhaustive_tiers=("quick", "thorough"))
     chk.sub("segmented_examples", o_segmented, enum=e_examples, exhaustive_tiers=("quick", "thorough"))
     chk.sub("segmented", o_segmented, cov={"quick": 1500, "thorough": 100000}, strategy=s_segmented(), n={"quick": 6000, "thorough": 250000}, budget_s={"quick": 26, "thorough": 310})
